@@ -49,6 +49,18 @@ def rand_grid(rng, fmt, bins, style=None):
         pts = sorted(fmt.round(c + (Fraction(rng.getrandbits(16), 2 ** 16) - Fraction(1, 2)) * Fraction(1, 2 ** rng.randint(2, 12))) for _ in range(bins - 1))
         pts = [min(max(p, Fraction(0)), Fraction(1)) for p in pts]
         g = [Fraction(0)] + pts + [Fraction(1)]
+    elif style == 'dyadic':
+        # boundaries at multiples of 1/8 and widths that are powers of two: every dyadic lattice fine enough is aligned
+        # with the bins of every such grid (bins must be 2 or 4)
+        import itertools as _it
+        if bins == 2:
+            g = [Fraction(0), Fraction(1, 2), Fraction(1)]
+        else:
+            assert bins == 4
+            widths = rng.choice([[Fraction(1, 8), Fraction(1, 8), Fraction(1, 4), Fraction(1, 2)], [Fraction(1, 4)] * 4, [Fraction(1, 8), Fraction(1, 8), Fraction(1, 4), Fraction(1, 2)]])
+            widths = widths[:]; rng.shuffle(widths)
+            g = [Fraction(0)]
+            for w in widths: g.append(g[-1] + w)
     elif style == 'ties':
         pts = sorted(fmt.round(Fraction(rng.randint(0, 4), 4)) for _ in range(bins - 1))
         g = [Fraction(0)] + pts + [Fraction(1)]
